@@ -29,6 +29,7 @@ func stdFlags(name string, args []string) (in, out, dir string, seed int64, work
 
 func main() {
 	commands["c02"] = runC02
+	commands["ops"] = runOps
 	registerMore()
 	if len(os.Args) < 2 {
 		fmt.Fprintln(os.Stderr, "usage: h5v <command> [flags]")
